@@ -49,7 +49,7 @@ FOCUS_G = {
  'C16': ('src/logs.rs (LogReader end-of-file handling, LogWriter::new)', 'VersionSet::recover / maybe_reuse_manifest in src/versioning/version_set.rs, DB::recover_unrecorded_logs'),
  'C17': ('DB::open / DB::recover ordering in src/db.rs, src/fs/traits.rs (FileLock)', 'destroy_database in src/db.rs, src/fs/fs_disk.rs (TmpFileSystem root handling, lock_file)'),
 }
-EXCLUDED_H = '''Batch::append_batch, Batch::try_from, BatchElement::read_element, BlockBuilder::add_entry, BlockIter::seek, BlockRecord::try_from, BloomFilterPolicy::{create_filter, key_may_match, new}, CompactionManifest::{finalize_compaction_inputs, find_largest_key, find_smallest_boundary_file, is_base_level_for_key, make_merging_iterator, should_stop_before_key}, CompactionState::{finalize_version_manifest, finish_compaction_output_file, new, open_compaction_output_file}, CompactionWorker::{cleanup_compaction, compact_memtable, compact_tables, compaction_task, coordinate_compaction, install_compaction_results}, DB::{apply, apply_batch_to_memtable, apply_changes, build_group_commit_batch, build_table_from_iterator, compact_range, convert_memtable_to_file, destroy_database, drop, force_level_compaction, force_memtable_compaction, get, get_snapshot, initialize_as_new_db, is_first_writer, make_room_for_write, new_iterator, open, recover, recover_unrecorded_logs, recover_wal_records, remove_obsolete_files, set_current_file, should_schedule_compaction}, DatabaseIterator::{find_next_client_entry, find_prev_client_entry, next, sample_read_stats_for_current_key, seek, seek_to_first}, FileMetadata::{deserialize, set_largest_key}, FileNameHandler::get_temp_file_path, FilesEntryIterator::{seek, set_table_iter}, FilterBlockBuilder::{add_key, generate_filter, notify_new_data_block}, FilterBlockReader::{key_may_match, new, split_filters_with_offset}, InMemoryFileSystem::create_file, LRUCache::new_id, LinkedList::{iter, remove_node}, LogReader::{len, new, read_physical_record, read_record}, LogWriter::{append, emit_block, new}, MergingIterator::{get_error, next, prev, seek, seek_to_first}, lock_file (both file systems), read_length_prefixed_slice, read_raindb_level, SkipListMemTable::get, SkipListMemTableIter::seek, SnapshotList::{delete_snapshot, new_snapshot}, Table::{cache_block_reader, get, read_block_from_disk, read_filter_meta_block}, TableBuilder::{add_entry, finalize, flush_data_block, new}, TableCache::get, TwoLevelIterator::{init_data_block, next, prev, seek, seek_to_first}, Version::{debug_summary, get, get_overlapping_compaction_inputs, get_overlapping_files, get_representative_iterators, pick_level_for_memtable_output, record_read_sample}, VersionBuilder::{accumulate_changes, apply_changes, maybe_add_file}, the VersionChangeManifest codec (From / TryFrom), VersionSet::{compact_range, get_live_files, get_new_file_number, get_new_version_from_current, log_and_apply, mark_file_number_used, maybe_reuse_manifest, persist_changes, pick_compaction, recover, release_version, write_snapshot}, Writer::{set_operation_completed, set_operation_result}, find_file_with_upper_bound_range'''
+EXCLUDED_H = '''Batch::append_batch, Batch::try_from, BatchElement::read_element, BlockBuilder::add_entry, BlockIter::seek, BlockRecord::try_from, BloomFilterPolicy::{create_filter, key_may_match, new}, CompactionManifest::{finalize_compaction_inputs, find_largest_key, find_smallest_boundary_file, is_base_level_for_key, make_merging_iterator, should_stop_before_key}, CompactionState::{finalize_version_manifest, finish_compaction_output_file, new, open_compaction_output_file}, CompactionWorker::{cleanup_compaction, compact_memtable, compact_tables, compaction_task, coordinate_compaction, install_compaction_results}, DB::{apply, apply_batch_to_memtable, apply_changes, build_group_commit_batch, build_table_from_iterator, compact_range, convert_memtable_to_file, destroy_database, drop, force_level_compaction, force_memtable_compaction, get, get_snapshot, initialize_as_new_db, is_first_writer, make_room_for_write, new_iterator, open, recover, recover_unrecorded_logs, recover_wal_records, remove_obsolete_files, set_current_file, should_schedule_compaction}, DatabaseIterator::{find_next_client_entry, find_prev_client_entry, next, sample_read_stats_for_current_key, seek, seek_to_first}, FileMetadata::{deserialize, set_largest_key}, FileNameHandler::get_temp_file_path, FilesEntryIterator::{seek, set_table_iter}, FilterBlockBuilder::{add_key, generate_filter, notify_new_data_block}, FilterBlockReader::{key_may_match, new, split_filters_with_offset}, InMemoryFileSystem::create_file, LRUCache::new_id, LinkedList::{iter, remove_node}, LogReader::{len, new, read_physical_record, read_record}, LogWriter::{append, emit_block, new}, MergingIterator::{get_error, next, prev, seek, seek_to_first}, lock_file (both file systems), read_length_prefixed_slice, read_raindb_level, SkipListMemTable::get, SkipListMemTableIter::seek, SnapshotList::{delete_snapshot, new_snapshot}, Table::{cache_block_reader, get, read_block_from_disk, read_filter_meta_block}, TableBuilder::{add_entry, finalize, flush_data_block, new}, TableCache::get, TwoLevelIterator::{init_data_block, next, prev, seek, seek_to_first}, Version::{debug_summary, get, get_overlapping_compaction_inputs, get_overlapping_files, get_representative_iterators, pick_level_for_memtable_output, record_read_sample}, VersionBuilder::{accumulate_changes, apply_changes, maybe_add_file}, the VersionChangeManifest codec (From / TryFrom), VersionSet::{compact_range, get_live_files, get_new_file_number, get_new_version_from_current, log_and_apply, mark_file_number_used, maybe_reuse_manifest, persist_changes, pick_compaction, recover, release_version, write_snapshot}, Writer::{set_operation_completed, set_operation_result}, find_file_with_upper_bound_range, CachingIterator::seek, MergingIterator::find_smallest, FilesEntryIterator::skip_empty_table_files_forward / _backward, TwoLevelIterator::skip_empty_data_blocks_forward / _backward, Version::has_overlap_in_level, DB::set_bad_database_state, VersionChangeManifest::add_file, CompactionManifest::set_change_manifest_for_trivial_move, create_file (all file systems), the Read impl of the in-memory file, TableCache::find_table'''
 TASK = """# Task
 
 You are helping to evaluate a verification effort for the Rust crate `raindb` (a LevelDB-style LSM-tree key-value store).
